@@ -185,7 +185,8 @@ func VerifH_C09_NumericEdges() {
 // encoding of the same value, and rejects input that is not valid JSON.
 func VerifH_C10_EvalBytes() {
 	exprs := []string{"a", "a.b", "$sum(arr)", "arr[0]", "nothing", "$", "{\"k\": arr}", "a.b & \"x\"", "$sum", "[a.b, null]", "arr.$string()", "1/0", "$keys($)"}
-	docs := []string{`{"a":{"b":1.5},"arr":[1,2,3]}`, `[1,"x",null,{"a":{"b":[true]}}]`, `"str"`, `null`, `{"a":`, ``, `{"arr":[1e308,1e308]}`, `tru`}
+	docs := []string{`{"a":{"b":1.5},"arr":[1,2,3]}`, `[1,"x",null,{"a":{"b":[true]}}]`, `"str"`, `null`, `{"a":`, ``, `{"arr":[1e308,1e308]}`, `tru`,
+		`{"a":{"b":1}} x`, `{"a":{"b":1}}{"a":{"b":2}}`, `[1,2]]`, `{"a":{"b":1}},`, " \n{\"a\":{\"b\":2}}\t "}
 	ex := exprs[verifChoose(len(exprs))]
 	d := docs[verifChoose(len(docs))]
 	e, err := Compile(ex)
